@@ -196,6 +196,40 @@ pub fn main(args: &[String]) {
             }
         }
     }
+    // the runtime's own conversions and copies: the arm and the payload survive `into`, `clone` and the way back
+    {
+        use diplomat_runtime::{DiplomatOption, DiplomatResult};
+        let mut bad: Vec<String> = vec![];
+        for v in [Ok::<u32, i16>(7), Err(-3), Ok(0), Err(0)] {
+            let w: DiplomatResult<u32, i16> = v.into();
+            if w.is_ok != v.is_ok() { bad.push(format!("into: {v:?} has is_ok={}", w.is_ok)); }
+            let c = w.clone();
+            if c.is_ok != v.is_ok() { bad.push(format!("clone: {v:?} cloned with is_ok={}", c.is_ok)); }
+            let back: Result<u32, i16> = c.into();
+            if back != v { bad.push(format!("clone + into: {v:?} came back as {back:?}")); }
+            let back2: Result<u32, i16> = w.into();
+            if back2 != v { bad.push(format!("into: {v:?} came back as {back2:?}")); }
+        }
+        for v in [Some(9u16), None, Some(0)] {
+            let w: DiplomatOption<u16> = v.into();
+            if w.is_ok != v.is_some() { bad.push(format!("into: {v:?} has is_ok={}", w.is_ok)); }
+            let c = w.clone();
+            if c.is_ok != v.is_some() { bad.push(format!("clone: {v:?} cloned with is_ok={}", c.is_ok)); }
+            if c.into_option() != v { bad.push(format!("clone + into_option: {v:?} changed")); }
+            if w.into_option() != v { bad.push(format!("into_option: {v:?} changed")); }
+        }
+        for v in [Ok::<String, String>("ok".into()), Err("err".into())] {
+            let w: DiplomatResult<String, String> = v.clone().into();
+            let c = w.clone();
+            let back: Result<String, String> = c.into();
+            if back != v { bad.push(format!("clone + into: {v:?} came back as {back:?}")); }
+        }
+        rep.oracle_runs += 1;
+        rep.count("probe:runtime-arms");
+        if !bad.is_empty() {
+            rep.oracle_fail("(c10 probe runtime-result-option-arms)", "is_ok / payload of a runtime result or option do not survive conversion or copying", json!({"problems": bad}));
+        }
+    }
     // JS: option fields of structs travelling through memory, payloads including zero and false (generated .mjs in Node
     // against rustc's bytes, and against a real wasm32 module)
     {
